@@ -208,6 +208,9 @@ def twist_cases(ctx):
                     continue
                 if np.abs(r * th - S).max() > T12 * max(1.0, float(np.abs(S).max())):
                     ctx.fail(cid, site, 'mismatch', dict(P, law='direction'), 'unit twist times magnitude does not reproduce the twist')
+                elif th > 0 and np.abs(r - S / th).max() > T12 * max(1.0, float(np.abs(S / th).max())):
+                    # the same law at the scale of the result (a tiny twist divided by its magnitude): the whole vector is scaled, not one half of it
+                    ctx.fail(cid, site, 'mismatch', dict(P, law='direction'), 'unit twist is not the twist divided by its magnitude (off by %.3g)' % np.abs(r - S / th).max())
                 ok2, r2 = call(f, r.copy())
                 if not ok2 or r2 is None or np.abs(np.asarray(r2) - r).max() > T12 * max(1.0, float(np.abs(r).max())):
                     ctx.fail(cid, site, 'mismatch', dict(P, law='idempotent'), 'second application changes the value')
